@@ -194,7 +194,21 @@ def run(p: Program, rep: Report, tier: str) -> None:
             rep.ok("R17.2", f"constructor: _list is a fresh list ({show(items)[:50]}) and _dict = dict(of it)")
         else:
             rep.violation("R17.2", construct(init, text=f"_list = {show(items)[:50]}"), where(init), "the constructor keeps the caller's own list object as _list (later mutation of either side desynchronises them)")
-    rep.require_instances("R17.2", 3)
+    # the branch that reads `.items()` must be taken by EVERY Mapping the annotation admits
+    from ..common import narrow_mapping_tests
+    for ci_ in [mm] + p.subclasses(mm):
+        init_ = ci_.methods.get("__init__")
+        if init_ is None:
+            continue
+        rep.analysed(init_.fq)
+        nm = narrow_mapping_tests(p, init_)
+        for node, desc in nm:
+            rep.violation("R17.2", construct(init_, text="mapping branch narrowed: " + desc.split(" although")[0]), where(init_, node),
+                          f"{init_.fq}: {desc}: a Mapping that is not a dict (MappingProxyType, ChainMap, Headers, ...) is iterated as if it were a list of pairs - "
+                          "its keys are unpacked as (key, value)")
+        if not nm and any(isinstance(n, ast.Call) and isinstance(n.func, ast.Name) and n.func.id == "isinstance" for n in ast.walk(init_.node)):
+            rep.ok("R17.2", f"{init_.fq}: the mapping branch is selected by the abstract Mapping type")
+    rep.require_instances("R17.2", 4)
 
     # ---------------------------------------------------------------- R17.3 no aliasing out
     fam = [mm] + p.subclasses(mm)
